@@ -33,6 +33,7 @@ for sid in sorted(os.listdir(os.path.join(V, "seeded"))):
                     break
     finally:
         subprocess.run(["git", "-C", "/repo", "checkout", "--", "."])
+        subprocess.run(["git", "-C", "/repo", "clean", "-fdq", "--", "optimism"])
     print(sid, out[sid]["result"], ",".join(out[sid]["rules"]))
 json.dump(out, open(os.path.join(V, "seeded", "CATCH_MATRIX.json"), "w"), indent=1)
 n = sum(1 for v in out.values() if v["result"] == "caught")
